@@ -173,7 +173,7 @@ PROPS['C05'].update({
     'coq_targets': ['Properties/C05.vo', 'Impl/ImplBoard.vo'],
     'obligation_files': ['Properties/C05.v', 'Lemmas/GameLemmas8.v', 'Impl/ImplBoard.v'],
     'level': 'proof',
-    'level_text': 'Proof for every game played on a board from any legal start position, any set-up clock and move number and any key table: after each move, a draw condition of the specification game (current position occurred >= 3 times in the game, start included - five-fold from the fifth; half-move clock >= 100 counted on from set-up; insufficient material after a capture or under-promotion) implies the board reports Draw with the reason of the last applicable rule, and the board reports Draw only if some condition has held in the game; the repetition map counts nodes per hash, every node carries the scratch hash (C07), a potential argument shows no equal position lies beyond the clock window, the exact recount equals the specification occurrences; insufficient material popcount test = K v K / K+minor v K / two bishops on one square colour; adjudication = checkmate iff in check. Forked boards carry the same game (fork_game). The three repaired defects are refuted by computation. Model vs Go on operation scripts; Go vs the specification game after every push.',
+    'level_text': 'Proof for every game played on a board from any legal start position, any set-up clock 0 .. 2^63-1 (the clock saturates there; the refinement relation is board clock = min(specification clock, 2^63-1)) and move number and any key table: after each move, a draw condition of the specification game (current position occurred >= 3 times in the game, start included - five-fold from the fifth; half-move clock >= 100 counted on from set-up; insufficient material after a capture or under-promotion) implies the board reports Draw with the reason of the last applicable rule, and the board reports Draw only if some condition has held in the game; the repetition map counts nodes per hash, every node carries the scratch hash (C07), a potential argument shows no equal position lies beyond the clock window, the exact recount equals the specification occurrences; insufficient material popcount test = K v K / K+minor v K / two bishops on one square colour; adjudication = checkmate iff in check. Forked boards carry the same game (fork_game). The three repaired defects are refuted by computation. Model vs Go on operation scripts; Go vs the specification game after every push.',
     'level_note': 'Set-up conditions are not checked by NewBoard (a clock of 100 or bare kings at set-up are not reported) - the property speaks of "after each move". The Draw flag is sticky along a line (PushMove inherits it) and cleared by PopMove. Trusted: Coq kernel, harness.',
 })
 PROPS['C10'].update({
